@@ -281,3 +281,40 @@ MANIFEST_TEXT["C12"] = dict(
     text="After every transaction the monitor reconstructs each hyperedge from the live connectors' typed ends and checks that it is one tree over exactly the original terminals, that reported new/deleted objects agree with the live objects, and that every route joins its two attachments without crossing a shape. Held on the executions observed; teardown is additionally leak-checked in C15.",
     note="Reads Router::connRefs and Router::m_obstacles (public members) as the live-object ground truth.",
 )
+
+CHECKS["C07"] = dict(
+    level="exploration",
+    rule=("cases = graphs (tree / random / disconnected / edgeless, n 1..60), initial placements (spread, crowded, coincident, collinear), compound constraints of every judged type "
+          "(separation incl. equality and between alignments, alignment with offsets and fixed position, boundary, distribution, multi-separation, fixed-relative; page boundaries are run "
+          "but not judged because they are documented as soft) in a 'satisfiable by construction' regime (derived from a hidden witness placement) and an arbitrary regime; drivers run(), "
+          "makeFeasible()+run(), runOnce()xk and ConstrainedMajorizationLayout::run(); overlap avoidance and neighbour stress on/off. Every constraint is re-evaluated by an independent "
+          "evaluator on the final rectangle centres; it is excused only if an UnsatisfiableConstraintInfo naming that compound constraint was delivered. "
+          "non-trivial = some constraint is violated by the initial placement"),
+    workloads=[dict(harness="c07_cola", mode="constraints", quick=6000, thorough=250000, watchdog=60, san_thorough=3000)],
+    min_nontrivial=dict(quick=1500, thorough=30000),
+    max_inconclusive=0.03,
+    require_obs=["constraints_checked.separation", "constraints_checked.alignment", "constraints_checked.boundary", "constraints_checked.fixed-relative", "layouts_reporting_unsatisfiable"],
+    assumptions=["tolerance 1e-4 as stated; rectangle size tolerance relative to coordinate magnitude (1e-9)",
+                 "AlignmentConstraint::fixPos and PageBoundaryConstraints are soft (weights) and are not judged"],
+)
+MANIFEST_TEXT["C07"] = dict(
+    technique="runtime monitor: independent evaluators per compound-constraint type applied to final positions; excusal only via the delivered unsatisfiable-constraint lists",
+    text="Each generated layout problem is run through one of four drivers and every user constraint is re-evaluated from its documented meaning on the returned rectangle centres; a constraint that is violated by more than 1e-4 and was not reported unsatisfiable is a violation, as are changed sizes and non-finite coordinates. Held on the executions observed.",
+    note="Trusts the harness' reading of each constraint type's documentation.",
+)
+CHECKS["C08"] = dict(
+    level="exploration",
+    rule=("cases = graphs n 1..35 with heavy initial overlap (crowded, coincident, nested rectangles), overlap avoidance on, makeFeasible() then run(); optional exemption groups; "
+          "optional hierarchy of rectangular clusters (1-3 clusters, nesting depth <=2, padding/margins) and user constraints derived from a non-overlapping witness placement. "
+          "Judged only when nothing was reported unsatisfiable. non-trivial = at least one pair of rectangles overlaps initially"),
+    workloads=[dict(harness="c07_cola", mode="overlap", quick=4000, thorough=150000, watchdog=120, san_thorough=2000)],
+    min_nontrivial=dict(quick=1500, thorough=30000),
+    max_inconclusive=0.03,
+    require_obs=["pairs_checked", "sibling_cluster_pairs_checked", "node_vs_foreign_cluster_checked"],
+    assumptions=["overlap tolerance 1e-3 in both dimensions, as stated", "cluster member bounding boxes are computed by the harness from node rectangles only (padding/margins ignored: the weaker, stated requirement)"],
+)
+MANIFEST_TEXT["C08"] = dict(
+    technique="runtime monitor: pairwise rectangle-overlap and cluster-containment oracle on final positions of layouts with heavy initial overlap",
+    text="After makeFeasible()+run() with overlap avoidance the harness checks every non-exempt pair of rectangles and, with cluster hierarchies, the member bounding boxes of sibling clusters and foreign nodes. Held on the executions observed.",
+    note="Judged only when the layout reported nothing unsatisfiable, as the property states.",
+)
